@@ -459,7 +459,7 @@ func runCheck(id, tier string) int {
 			defer wg.Done()
 			for bn := 0; ; bn++ {
 				mu.Lock()
-				if next >= b.Runs || time.Now().After(deadline) || len(harnessErr) > 0 || a.unknownViolations(id) >= 6 {
+				if next >= b.Runs || time.Now().After(deadline) || len(harnessErr) > 0 || (a.unknownViolations(id) >= 6 && os.Getenv("VERIF_ENUM") == "") {
 					mu.Unlock()
 					return
 				}
@@ -530,6 +530,12 @@ func runCheck(id, tier string) int {
 			}
 		}
 		if isKnown {
+			continue
+		}
+		if os.Getenv("VERIF_ENUM") != "" {
+			// developer aid (triage of a family of findings): list every
+			// signature met, no minimisation, no verdict
+			fmt.Printf("ENUM %s %s count=%d :: %s\n", id, sig, vr.count, vr.v.Message)
 			continue
 		}
 		nviol++
